@@ -136,7 +136,9 @@ def check(run, replay):
     run.oblige("build:model Pipeline/Sampler.vo", model_ok, "" if model_ok else log[-1500:])
     if not model_ok:
         raise vlib.Broken("build:Pipeline/Sampler.vo", log)
-    vlib.standard_proof_phase(run, ["Props/C07.vo"], "Outrank.Props.C07", THEOREMS)
+    proofs_ok = vlib.standard_proof_phase(run, ["Props/C07.vo"], "Outrank.Props.C07", THEOREMS)
+    if proofs_ok and run.tier == "thorough" and replay is None:
+        vlib.coqchk(run, "Outrank.Props.C07")
 
     if replay is not None:
         cases = [replay["case"]]
